@@ -191,6 +191,18 @@ def sink(ctx, loop_fn=None):
             ctx.ob('SINK', '%s/%s#%d' % (fl, meth, sum(1 for bb2, t2 in b.calls() if bb2 < bb and (t2.get('callee') or '') == c)), ok, short_loc(t.get('span')),
                    'Write::%s on %s: %s' % (meth, recv_ty, why))
     ctx.floor('SINK', 'sink-write call sites', n, 6)
+    # the sink is never put behind a buffering adaptor: BufWriter / LineWriter flush in Drop and swallow the error, so a
+    # failed or short write would be reported as success
+    wrapped = []
+    for b in f.body_list:
+        fl = fn_label(b)
+        if not (fl.startswith('object_container_file_encoding::writer::') or fl.startswith('<object_container_file_encoding::writer::') or fl.startswith('single_object_encoding::')):
+            continue
+        for bb, t in b.calls():
+            c = cname(t)
+            if ('BufWriter' in c or 'LineWriter' in c) and not b.is_cleanup(bb):
+                wrapped.append('%s in %s' % (strip_generics(c).rsplit('::', 2)[-2] + '::' + strip_generics(c).rsplit('::', 1)[-1], short_fn(fl)))
+    ctx.ob('SINK', 'no-buffering-adaptor-over-the-sink', not wrapped, None, 'buffering adaptors constructed / used in the writer: %s' % (sorted(set(wrapped)) or 'none'))
 
 
 DISCARD_REVIEWED = {
